@@ -49,11 +49,63 @@ def tasks(tier):
     ts.append(("trial vs committed", "run_trial", {}))
     ts.append(("softening", "run_softening", {}))
     ts.append(("plasticity", "run_plasticity", {}))
+    ts.append(("job with a global field", "run_job_x0", {}))
     # the usual way to give a history-dependent material a volumetric part is `material & Volumetric(...)`: what the body stores as trial
     # state (and commits after convergence) is what the composite hands out
     ts.append(("composite state", "run_included", dict(modname="c03", fname="run_composite", kwargs={}, oid="C15.O8", select_oid="C03.O8",
                                                       why="state variables change ... exactly to the values of the converged iterate: a composite must pass on the new state its history-dependent (first) material computed")))
     return ts
+
+
+def run_job_x0(col):
+    """O2 (job level): Job.evaluate(x0=global field) -- the Newton solver of substep i+1 is started with a global field that carries the
+    values substep i converged on (Job re-links x0 between the substeps it receives from Step.generate)"""
+    from .c20 import meshio_summary, Store
+
+    it = new_interp()
+    it.lazy_generators = True
+    it.externals.update(meshio_summary(Store()))
+    fc, n, dof0, dof1, ext0, regs = scenario.make_problem(it)
+    seen, sols = [], []
+
+    class Res:
+        pass
+
+    def newton(interp, fn, args, kwargs):
+        x0 = kwargs.get("x0")
+        seen.append(None if x0 is None else [P(v) for v in scenario.flat_values(interp, x0)])
+        r = Res()
+        r.success = True
+        r.x = interp.call_method(fc, "copy", [])
+        k = len(sols)
+        for f in interp.getattr(r.x, "fields"):
+            vals = interp.getattr(f, "values")
+            new = np.empty(np.asarray(vals).shape, dtype=object)
+            for idx in np.ndindex(*new.shape):
+                new[idx] = sym("sol%d_%s" % (k, "_".join(map(str, idx))))
+            interp.setattr(f, "values", new)
+        sols.append([P(v) for v in scenario.flat_values(interp, r.x)])
+        r.fnorms = [0]
+        return r
+
+    it.call_hooks[("felupe.tools._newton", "newtonrhapson")] = newton
+    it.call_hooks[("felupe.dof._tools", "partition")] = lambda interp, fn, args, kwargs: (dof0, dof1)
+    it.call_hooks[("felupe.dof._tools", "apply")] = lambda interp, fn, args, kwargs: ext0
+    Step = it.get("felupe.mechanics._step:Step")
+    Job = it.get("felupe.mechanics._job:Job")
+    itemA = scenario.FakeItem([], "A", fc, n)
+    nsub = 3
+    steps = [it.call(Step, [], dict(items=[itemA], ramp={itemA: [sym("s%d" % k) for k in range(nsub)]}, boundaries={})),
+             it.call(Step, [], dict(items=[itemA], ramp={itemA: [sym("t%d" % k) for k in range(2)]}, boundaries={}))]
+    job = it.call(Job, [steps], {})
+    x0 = it.call_method(fc, "copy", [])
+    it.call_method(job, "evaluate", [], dict(verbose=False, x0=x0))
+    bad = [k for k in range(1, len(seen)) if seen[k] is None or any(not is_zero(a - b) for a, b in zip(seen[k], sols[k - 1]))]
+    col.add("C15.O2", "Job.evaluate(x0=global field) continuation", "every substep (of every step) starts Newton with a global field carrying the values of the previous converged substep",
+            len(seen) == nsub + 2 and not bad, "mechanics/_job.py Job.evaluate: %d Newton calls; substeps started from stale values: %s" % (len(seen), bad))
+    final = [P(v) for v in scenario.flat_values(it, x0)]
+    col.add("C15.O2", "Job.evaluate(x0=global field) final state", "after the job the global field carries the last converged values", bool(sols) and all(is_zero(a - b) for a, b in zip(final, sols[-1])))
+    finish_info(col, it)
 
 
 def run_included(col, modname, fname, kwargs, oid, why, select_oid=None):
